@@ -49,7 +49,21 @@ pub enum Mode {
 pub enum Case {
     Match { items: Vec<Item>, modes: Vec<Mode>, resize: i8, allow_collision: bool },
     SelfTemplate { els: Vec<El>, allow_collision: bool },
-    Criteria { scripts: Vec<Vec<Item>>, values: Vec<u64>, template_of: Option<(u8, Vec<Mode>)>, exact: Option<u16>, min: Option<u16>, max: Option<u16>, inputs: bool },
+    Criteria {
+        scripts: Vec<Vec<Item>>,
+        values: Vec<u64>,
+        template_of: Option<(u8, Vec<Mode>)>,
+        exact: Option<u16>,
+        min: Option<u16>,
+        max: Option<u16>,
+        inputs: bool,
+        /// inputs only: bit i set = input i carries no value (the state of every input read from wire bytes)
+        #[serde(default)]
+        no_value: u8,
+        /// inputs only: this input's unlocking script is an opaque (coinbase-style) element whose bytes do not parse as a script
+        #[serde(default)]
+        opaque: Option<u8>,
+    },
 }
 
 fn item_bytes(it: &Item) -> Option<Vec<u8>> {
@@ -93,7 +107,8 @@ fn item_el(it: &Item) -> El {
 }
 
 /// opcodes usable as exact script elements / template tokens: the template pseudo-opcodes OP_DATA, OP_SIG,
-/// OP_PUBKEYHASH, OP_PUBKEY (251..=254) are template syntax, not script content
+/// OP_PUBKEYHASH, OP_PUBKEY (251..=254) are template syntax: no exact token for them can be written in template text,
+/// so the hand-written-template cases leave them out (the self-template case includes them, see `known`)
 fn script_ops() -> Vec<u8> {
     gs::plain_opcodes().into_iter().filter(|b| !(251..=254).contains(b)).collect()
 }
@@ -364,18 +379,27 @@ impl Property for C19 {
     }
 
     fn strategy(_tier: Tier) -> BoxedStrategy<Case> {
-        let minimal_els = prop::collection::vec(prop_oneof![5 => prop::sample::select(script_ops()).prop_map(El::Op), 4 => gs::push_minimal(false), 2 => (0u8..=255).prop_map(|b| El::Push(0, Bytes::Lit(vec![b])))], 0..8);
+        // the self-template case draws from every opcode byte the parser accepts, the four template words' bytes included (rarely)
+        let minimal_els = prop::collection::vec(prop_oneof![60 => prop::sample::select(script_ops()).prop_map(El::Op), 1 => (251u8..=254).prop_map(El::Op), 48 => gs::push_minimal(false), 24 => (0u8..=255).prop_map(|b| El::Push(0, Bytes::Lit(vec![b])))], 0..8);
         prop_oneof![
             12 => (prop::collection::vec(item(), 1..7), prop::collection::vec(mode(), 1..7), prop_oneof![8 => Just(0i8), 1 => Just(1i8), 1 => Just(-1i8)], prop::bool::weighted(0.15))
                 .prop_map(|(items, modes, resize, allow_collision)| Case::Match { items, modes, resize, allow_collision }),
             4 => (minimal_els, prop::bool::weighted(0.15)).prop_map(|(els, allow_collision)| Case::SelfTemplate { els, allow_collision }),
-            6 => (prop::collection::vec(prop::collection::vec(item(), 1..4), 0..5), prop::collection::vec(0u64..8, 5), prop::option::of((any::<u8>(), prop::collection::vec(mode(), 1..4))), prop::option::of(0u16..8), prop::option::of(0u16..8), prop::option::of(0u16..8), any::<bool>())
-                .prop_map(|(scripts, values, template_of, exact, min, max, inputs)| Case::Criteria { scripts, values: values.iter().map(|v| 1000 + v).collect(), template_of, exact, min, max, inputs }),
+            6 => (prop::collection::vec(prop::collection::vec(item(), 1..4), 0..5), prop::collection::vec(0u64..8, 5), prop::option::of((any::<u8>(), prop::collection::vec(mode(), 1..4))), prop::option::of(0u16..8), prop::option::of(0u16..8), prop::option::of(0u16..8), any::<bool>(), prop_oneof![2 => Just(0u8), 1 => any::<u8>()], prop::option::weighted(0.1, any::<u8>()))
+                .prop_map(|(scripts, values, template_of, exact, min, max, inputs, no_value, opaque)| Case::Criteria { scripts, values: values.iter().map(|v| 1000 + v).collect(), template_of, exact, min, max, inputs, no_value, opaque }),
         ]
         .boxed()
     }
 
     fn known(case: &Case, f: &Failure) -> Option<&'static str> {
+        // the bytes 251..=254 are the template words OP_DATA / OP_SIG / OP_PUBKEYHASH / OP_PUBKEY: a script holding one of them
+        // as an opcode renders it as that word, which its own template reads as a typed token
+        if let (Case::SelfTemplate { els, .. }, true) = (case, f.check == "self_template_matches" || f.check == "self_template_is_match") {
+            if els.iter().any(|e| matches!(e, El::Op(251..=254))) {
+                let neutral = Case::SelfTemplate { els: els.iter().map(|e| if matches!(e, El::Op(251..=254)) { El::Op(0x61) } else { e.clone() }).collect(), allow_collision: false };
+                return if Self::check(&neutral).is_ok() { Some("template-word-bytes") } else { None };
+            }
+        }
         // exact token of a one-byte push 0x10..0x16 reads back as OP_10..OP_16 (same root cause as C17's finding)
         if !(f.check == "template_must_match" || f.check == "self_template_matches") {
             return None;
@@ -447,7 +471,7 @@ impl Property for C19 {
                 o.nt_if(els.len() >= 2, "self-template");
                 o.label_if(els.is_empty(), "empty-script");
             }
-            Case::Criteria { scripts, values, template_of, exact, min, max, inputs } => {
+            Case::Criteria { scripts, values, template_of, exact, min, max, inputs, no_value, opaque } => {
                 let els: Vec<Vec<El>> = scripts.iter().map(|s| build(s, &[Mode::Exact], false).0).collect();
                 let vals: Vec<u64> = (0..els.len()).map(|i| values[i % values.len()]).collect();
                 let bound = |b: &Option<u16>| b.map(|x| 1000 + x as u64);
@@ -473,6 +497,8 @@ impl Property for C19 {
                 if let Some(v) = max {
                     crit.set_max(v);
                 }
+                let has_value = |i: usize| !*inputs || no_value & (1 << (i % 8)) == 0;
+                let is_opaque = |i: usize| *inputs && opaque.map(|k| (k as usize) % els.len().max(1) == i).unwrap_or(false);
                 let mut tx = Transaction::new(1, 0);
                 for (i, e) in els.iter().enumerate() {
                     if *inputs {
@@ -481,7 +507,14 @@ impl Property for C19 {
                         let cut = if e.is_empty() { 0 } else { (i * 7 + vals[i] as usize) % (e.len() + 1) };
                         let mut txin = TxIn::new(&[i as u8 + 1; 32], i as u32, &script_from_els(&e[..cut]), None);
                         txin.set_locking_script(&script_from_els(&e[cut..]));
-                        txin.set_satoshis(vals[i]);
+                        if is_opaque(i) {
+                            // joined with the locking script these bytes do not re-read as a script (a push runs past the end)
+                            txin.set_unlocking_script(&Script::from_coinbase_bytes(&[0x03, 0x01, 0x02, 0x03, 0x4c]).map_err(|e| failure("from_coinbase_bytes", e.to_string(), "Ok"))?);
+                            txin.set_locking_script(&Script::default());
+                        }
+                        if has_value(i) {
+                            txin.set_satoshis(vals[i]);
+                        }
                         tx.add_input(&txin);
                     } else {
                         tx.add_output(&TxOut::new(vals[i], &script_from_els(e)));
@@ -492,6 +525,8 @@ impl Property for C19 {
                 for (i, e) in els.iter().enumerate() {
                     let t_ok = match &tt {
                         None => true,
+                        // an input whose scripts do not read as a script matches no template
+                        Some(_) if is_opaque(i) => false,
                         Some(toks) => match expected(toks, e) {
                             Some(r) => r.is_ok(),
                             None => {
@@ -501,7 +536,9 @@ impl Property for C19 {
                         },
                     };
                     let v = vals[i];
-                    if t_ok && exact.map(|x| x == v).unwrap_or(true) && min.map(|m| m <= v).unwrap_or(true) && max.map(|m| v <= m).unwrap_or(true) {
+                    // a value that is not known satisfies no bound
+                    let v_ok = if has_value(i) { exact.map(|x| x == v).unwrap_or(true) && min.map(|m| m <= v).unwrap_or(true) && max.map(|m| v <= m).unwrap_or(true) } else { exact.is_none() && min.is_none() && max.is_none() };
+                    if t_ok && v_ok {
                         want.push(i);
                     }
                 }
@@ -514,6 +551,8 @@ impl Property for C19 {
                 o.nt_if(at_bound, "value-at-bound");
                 o.label_if(tt.is_some(), "criteria-with-template");
                 o.label(if *inputs { "inputs" } else { "outputs" });
+                o.nt_if(*inputs && (0..els.len()).any(|i| !has_value(i)) && (exact.is_some() || min.is_some() || max.is_some()), "input-without-value-against-a-bound");
+                o.label_if((0..els.len()).any(is_opaque), "input-with-unreadable-scripts");
             }
         }
         let _ = gen::pick(0, 1);
